@@ -410,7 +410,14 @@ class Interp:
             return self.native(fn, args, kwargs)
         # 3. models of builtins / numpy
         try:
-            m = self.models.get(key)
+            m = self.models.get(fn)
+            if m is not None and key is not fn:
+                always, h = m
+                if always or has_sym(args) or has_sym(kwargs):
+                    return h(*args, **kwargs)
+                m = None
+            if m is None:
+                m = self.models.get(key)
         except TypeError:
             m = None
         if m is not None:
